@@ -16,6 +16,8 @@ Decides the agreement clauses between the three places that give "true" and "fal
  * C03.restore     temporarily_disable / temporarily_enable restore the previous state on every exit.
 Not decided: that the basic block chosen as predicate node executes once per evaluation; short-circuit
 structure; the bytecode library's is_cond_jump().
+Further clauses (added later): C03.isolation: outcomes recorded by one execution do not reach the import
+trace, a later execution or another test's result (same interpretation as C02.isolation, predicate maps).
 """
 
 from __future__ import annotations
